@@ -256,7 +256,7 @@ def _aligned(P, R):
                         w1 = fmt_sym(da[3], maxdepth=8)
                         w2 = fmt_sym(bb_, maxdepth=8)
                         t = fmt_sym(da[2], maxdepth=6)
-                        if w1 == w2 and "as_millis" in w1:
+                        if w1 == w2 and ("as_millis" in w1 or strip(bb_)[0] == "param" or any(x[0] == "param" for x in walk(bb_))):
                             R.hold("b", "%s: aligned start = (%s / w) * w with one w (%s)" % (fn.short_name, t[-40:], w1[-50:]), fn=fn, line=s[0])
                         else:
                             R.violate("b", "aligned-start:%s" % fn.name, "%s computes a window start as (%s / %s) * %s: divisor and multiplier differ, the start is not aligned" % (fn.short_name, t[-40:], w1[-40:], w2[-40:]), fn, s[0])
